@@ -347,12 +347,12 @@ func c09OnePop(p *Prog, r *Report) {
 		return
 	}
 	head := f.loopHead(loop)
+	// (judged by the position of the call itself: the parameter binding of a spliced-in helper that is given
+	// the popped node sits at the helper's position)
+	inBody := func(c *ast.CallExpr) bool { return c.Pos() >= loop.Body.Pos() && c.End() <= loop.Body.End() }
 	pops := f.Match(func(n *GNode) bool {
-		if n.Ast.Pos() < loop.Body.Pos() || n.Ast.End() > loop.Body.End() {
-			return false
-		}
 		for _, c := range callsIn(n.Ast, false) {
-			if p.callIs(fi.Pkg, c, "(*internal/model/core.file).PopFront") {
+			if p.callIs(fi.Pkg, c, "(*internal/model/core.file).PopFront") && inBody(c) {
 				return true
 			}
 		}
@@ -382,9 +382,13 @@ func c09OnePop(p *Prog, r *Report) {
 	// helper that is given the address of the horizon is not feasible)
 	feasible := f.ReachNil([]int{f.Entry}, nil)
 	for _, id := range f.CallNodes("(*internal/model/core.file).PopFront") {
-		a := f.Nodes[id].Ast
-		if feasible[id] && (a.Pos() < loop.Body.Pos() || a.End() > loop.Body.End()) {
-			r.Viol("C09.c", kCoreDeleteOld+"#pop-outside-the-walk", p.pos(a), "the collector pops a version outside the loop over IterateBeforeSeq: a version is removed without the retention guard having yielded it")
+		if !feasible[id] {
+			continue
+		}
+		for _, c := range callsIn(f.Nodes[id].Ast, false) {
+			if p.callIs(fi.Pkg, c, "(*internal/model/core.file).PopFront") && !inBody(c) {
+				r.Viol("C09.c", kCoreDeleteOld+"#pop-outside-the-walk", p.pos(c), "the collector pops a version outside the loop over IterateBeforeSeq: a version is removed without the retention guard having yielded it")
+			}
 		}
 	}
 	r.Check(atLeast && atMost && len(backs) == 0, "C09.c", kCoreDeleteOld+"#one-pop", p.pos(loop), "exactly one PopFront per yielded version",
